@@ -220,13 +220,13 @@ def main_c15(tier, seed):
                         msg = "unlabeled sample %d has label %d, root prototype %d has %d" % (q, st["label"][q], r, it.labels[r]); break
             if not msg and it.nu == 0:
                 _, sst = impl_fit(it)
-                for f in ("cost", "pred", "plabel", "status", "order"):
+                for f in ("cost", "pred", "plabel", "label", "status", "order"):
                     if sst[f] != st[f]:
                         msg = "empty unlabeled set: field %s differs from supervised training" % f; break
         if msg:
             nviol += 1
             if nviol <= 3:
-                rep.violation("SemiSupervisedOPF.fit: " + msg, it.desc(), key="semi_fit")
+                rep.violation("SemiSupervisedOPF.fit: " + msg, it.desc(), key="semi_fit:label_overwritten" if "field label" in msg else "semi_fit")
     rep.extra["oracle_violations"] = nviol
     rep.samples = [it.desc() for it in insts[:2]]
     rep.rule = "labeled sets as in C01 plus 0,1,2,3,5 unlabeled samples (a third of the cases have an empty unlabeled set); non-trivial = n_l+n_u >= 3"
